@@ -1943,6 +1943,7 @@ def gen_plan_threads(seed: int, wide=False) -> dict:
         'valid_p': 0.85,
         'trace_scope': rk.choice(['memo', 'memo', 'all']),
         'opcode_trace': rk.random() < 0.3,
+        'opcode_scope': rk.choice(['util', 'util', 'all']),     # bytecode-granularity pre-emption: the memo only, or every traced pane module
     }
     plan = {'prop': PROP, 'seed': seed, 'cls': 'threads_wide' if wide else 'threads', 'knobs': knobs, 'setup': [], 'threads': [], 'ops': []}
     if target == 'keycache':
@@ -2068,7 +2069,8 @@ def execute_threads(plan, want_trace=False) -> dict:
 
     sched = Scheduler(st.rng('sched'), {'all': TRACED_ALL, 'classes': TRACED_CLASSES}.get(knobs.get('trace_scope'), TRACED),
                       switch_p=knobs['switch_p'], schedule=plan.get('schedule'), max_steps=120000,
-                      opcode_files=('pane/util.py',) if knobs.get('opcode_trace') else ())
+                      opcode_files=(() if not knobs.get('opcode_trace') else
+                                    (TRACED_ALL if knobs.get('opcode_scope') == 'all' else ('pane/util.py',))))
     sched.region_probe = lambda fr: fr.f_code.co_name == '__call__' and fr.f_code.co_filename.endswith('pane/util.py')
     util = sys.modules['pane.util']
 
